@@ -71,5 +71,5 @@ Next == \/ (Cmd /\ UNCHANGED edits)
 Spec == Init /\ [][Next]_<<vars, edits>>
 
 ExportCase == (Export /\ last # <<>>) =>
-    PrintT(ToJson([pre |-> pre, cmd |-> last, post |-> TreeRec, exit |-> exit, wrote |-> wrote, reports |-> Reports, gherror |-> GithubError]))
+    PrintT(ToJson([pre |-> pre, cmd |-> last, post |-> TreeRec, exit |-> exit, wrote |-> wrote, reports |-> Reports, gherror |-> GithubError, fmtreports |-> FmtReports]))
 =============================================================================
